@@ -5,7 +5,7 @@ import ast
 
 from ..fdai import Obj, Unknown, explore, Imprecise, EnumVal, PyRaise, cmp_outcome
 from ..loader import AnchorError, short, src, walk_no_nested, is_self_attr
-from ..rules import where, package_attr_writes, attr_writes
+from ..rules import where, package_attr_writes, attr_writes, elapsed_component
 from .loopsmodel import EXC, OTHER, Harness, alphabet, gates, LOOPS, sname
 from .c07 import may_pass
 
@@ -107,6 +107,9 @@ def run(p, led, tier):
                             probs.append(f"OPEN→{fin} without the recovery-timeout test having held")
                         if sw and sw != [("OPEN", "HALF_OPEN")]:
                             probs.append(f"illegal write(s) {sw}")
+                        comp = [d[2] for d in r["decisions"] if isinstance(d[2], str) and TS in d[2] and "recovery_timeout" in d[2] and elapsed_component(d[2])]
+                        if comp:
+                            probs.append(f"the recovery timeout is compared with a component of the elapsed time, not the elapsed time: `{comp[0][:140]}` ignores whole days (an open breaker stays shut after a day although the timeout passed)")
                         if elapsed and (fin != "HALF_OPEN" or r["ret"] is not True):
                             probs.append(f"timeout elapsed but probe not admitted (state {fin}, ret {r['ret']!r})")
                         if not sw and r["ret"] is not False:
